@@ -45,7 +45,11 @@ fn subprocess_result(mut args: Args) -> Result<i32> {
             let linker = crate::Linker::new();
             let _outputs = linker.run(&args, &thread_pool)?;
             crate::timing::finalise_perfetto_trace()?;
+            #[cfg(wild_verif)]
+            simrt::phase("before_inform_parent");
             inform_parent_done(&fds);
+            #[cfg(wild_verif)]
+            simrt::phase("after_inform_parent");
             Ok(0)
         }
         -1 => {
